@@ -58,7 +58,7 @@ pub fn make_scenario(rng : &mut Rng, prop : &str, thorough : bool) -> Scenario
     let some_target = |rng : &mut Rng| targets[rng.below(targets.len())].clone();
     let goal = |rng : &mut Rng| if rng.chance(1, 3) { Some(targets[rng.below(targets.len())].clone()) } else { None };
 
-    let class = if prop == "C06" { *rng.pick(&[2usize, 2, 2, 6, 6, 8, 1, 4, 9, 9, 9]) } else { rng.below(10) };
+    let class = if prop == "C06" { *rng.pick(&[2usize, 2, 2, 6, 6, 8, 1, 4, 9, 9, 9]) } else if prop == "C05" { rng.below(11) } else { rng.below(10) };
     let (label, prep) : (&str, Vec<HOp>) = match class
     {
         0 => ("fresh", vec![]),
@@ -81,6 +81,7 @@ pub fn make_scenario(rng : &mut Rng, prop : &str, thorough : bool) -> Scenario
             if rng.chance(1, 2) { ops.push(HOp::EditLeaf(some_leaf(rng))); }
             ("built+two-goals-cleaned+leaf-edited", ops)
         },
+        10 => ("built+cleaned+target-directories-removed", vec![HOp::Build(None), HOp::Clean(None), HOp::RemoveTargetDirs]),
         _ => ("built+cleaned+tampered", vec![HOp::Build(None), HOp::Clean(None), HOp::Tamper(some_target(rng))]),
     };
 
@@ -267,6 +268,8 @@ pub fn drive(prop : &str)
         tally.counts.inc(&format!("shape:{}", sc.run.graph_shape));
         let base = sc.run.world.sys.disk();
         let scenario_key = mix(sc.run.shape_hash, mix(fnv_str(&sc.run.world.ops.join(";")), case));
+        // a target directory is missing (removed by the user after a clean): only what holds regardless is judged
+        let broken = sc.run.world.env_broken();
 
         let mut first : Option<(u64, (Verdict, BTreeMap<String, Vec<u8>>), Vec<u32>)> = None;
         let mut distinct_schedules : BTreeSet<u64> = BTreeSet::new();
@@ -292,6 +295,14 @@ pub fn drive(prop : &str)
                 Final::Clean(g) => sc.run.world.invoke_clean(g.clone(), &choice),
             };
             if k == 0 { serial_steps = obs.report.steps.max(10); }
+            if obs.report.step_exceeded && prop == "C05"
+            {
+                // bounded progress (see the hist driver): the serial schedule of the same scenario took `serial_steps` steps
+                let v = Violation::new("C05", "no-termination-within-step-bound",
+                    format!("{} did not finish within {} scheduler steps (the serial schedule of this scenario takes about {})", obs.kind, obs.report.steps, serial_steps));
+                emit_violation(&params, &mut tally, case, &v, scenario_detail(&sc, &obs, vec![("schedule_index", J::u(k))]));
+                break;
+            }
             if obs.report.step_exceeded
             {
                 emit_inconclusive(&params, case, "scheduler step bound exceeded");
@@ -357,6 +368,11 @@ pub fn drive(prop : &str)
                 },
             }
 
+            if broken
+            {
+                found.retain(|x| match x.property.as_str() { "C05" | "C07" | "C08" | "C09" => true, _ => false });
+            }
+
             // tallies
             let sched_key = mix(scenario_key, sched_hash);
             match prop
@@ -385,7 +401,12 @@ pub fn drive(prop : &str)
                     if (obs.report.max_blocked as u64) > cur { tally.counts.add("max_simultaneously_blocked", obs.report.max_blocked as u64 - cur); }
                     tally.counts.inc(if obs.kind == "clean" { "clean_executions" } else { "build_executions" });
                 },
-                _ => {},
+                "C06" => {},
+                _ =>
+                {
+                    // C07, C08, C20 under explored schedules: one evaluation per distinct interleaving of a scenario
+                    if new_schedule { tally.eval(sched_key, multi && obs.report.threads >= 3); }
+                },
             }
             tally.counts.inc("executions");
 
@@ -425,3 +446,6 @@ pub fn drive(prop : &str)
 #[test] #[ignore] fn sched_c04() { drive("C04"); }
 #[test] #[ignore] fn sched_c05() { drive("C05"); }
 #[test] #[ignore] fn sched_c06() { drive("C06"); }
+#[test] #[ignore] fn sched_c07() { drive("C07"); }
+#[test] #[ignore] fn sched_c08() { drive("C08"); }
+#[test] #[ignore] fn sched_c20() { drive("C20"); }
